@@ -34,8 +34,9 @@ type Clause struct {
 	// atcall: the callee (FuncID) before whose calls the assertion is checked; its
 	// receiver and arguments are available as a0, a1, ...
 	Callee      string
-	Optional    bool // atcall-if-any: the clause may match no call
-	Site        int // atcall: call-site ordinal (source order) the clause applies to, -1 for all
+	Optional    bool     // atcall-if-any: the clause may match no call
+	Site        int      // atcall: call-site ordinal (source order) the clause applies to, -1 for all
+	Unchecked   bool     // an invariant that is assumed only (invariant-assumed)
 	CalleeTypes []string // explicit receiver and parameter types (library callees)
 }
 
@@ -57,6 +58,7 @@ type Contract struct {
 	Invariant    map[int][]*Clause
 	Modifies     []string // location expressions (Go text)
 	ModSet       bool     // a modifies clause is present (possibly empty = modifies nothing)
+	ModReflect   bool     // `reflect.memory` is listed: the function may call reflect setters
 	ModAll       bool     // modifies *: the callee may change anything reachable
 	Line         int
 	File         string
@@ -67,9 +69,9 @@ type Contract struct {
 	SplitReturns bool     // proof hint: postconditions are proved per return statement
 	AllocBound   uint64   // >0: every make([]T, n) in the function has n <= AllocBound (obligation kind "alloc")
 	AllocProps   []string
-	Reveal       []string // opaque specification functions whose definition this proof may use
+	Reveal       []string  // opaque specification functions whose definition this proof may use
 	Assumed      []*Clause // trusted facts assumed at entry (`assume`), not obligations of callers
-	Counts       []string // callees whose calls made by this function are counted (ghost counters read by vcCalls)
+	Counts       []string  // callees whose calls made by this function are counted (ghost counters read by vcCalls)
 	AtCalls      []*Clause
 	LightCalls   bool   // proof hint: quantified postconditions of callees are not imported
 	Pure         bool   // interface method: its results are functions of the receiver and the arguments
@@ -218,7 +220,7 @@ func ParseContractFile(pkgKey, path string) ([]*Contract, error) {
 				return nil, fmt.Errorf("%s:%d: cases %s: the preceding ensures clause is not of the form `forall %s T :: ...`", path, it.line, v, v)
 			}
 			last.CaseVar, last.CaseLo, last.CaseHi = v, lo, hi
-		case "invariant":
+		case "invariant", "invariant-assumed":
 			var k int
 			sp := strings.SplitN(rest, " ", 2)
 			if _, err := fmt.Sscanf(sp[0], "loop%d", &k); err != nil || len(sp) != 2 {
@@ -228,14 +230,22 @@ func ParseContractFile(pkgKey, path string) ([]*Contract, error) {
 			if err != nil {
 				return nil, fmt.Errorf("%s:%d: %v", path, it.line, err)
 			}
+			// invariant-assumed: a bound on a loop counter that machine arithmetic cannot give (the
+			// counter is treated as a mathematical integer): assumed at the loop head, never
+			// checked, and listed among the assumptions of the evidence
 			cur.Invariant[k] = append(cur.Invariant[k], &Clause{Kind: "invariant", Props: props, Text: body, Loop: k,
-				Binder: binders, Line: it.line, N: len(cur.Invariant[k])})
+				Binder: binders, Line: it.line, N: len(cur.Invariant[k]), Unchecked: kw == "invariant-assumed"})
 		case "modifies":
 			cur.ModSet = true
 			if rest == "*" {
 				cur.ModAll = true
 			} else if rest != "" && rest != "nothing" {
 				for _, l := range splitTop(rest, ",") {
+					if strings.TrimSpace(l) == "reflect.memory" {
+						// the memory behind reflect.Values (not modelled; see reflectVersionKey)
+						cur.ModReflect = true
+						continue
+					}
 					cur.Modifies = append(cur.Modifies, strings.TrimSpace(l))
 				}
 			}
